@@ -639,7 +639,7 @@ func run(c *hx.Ctx) error {
 	if p := os.Getenv("VERIF_C29_EXPLAIN"); p != "" { // development aid: one Go-quoted document per line
 		return explainFile(p)
 	}
-	res.Rule = "cases for the real code (run inside cmd/scriggo's tag-guarded test): (1) generated Markdown documents of 1-4 blocks from the construct list of the property (inline links and images with bare / angle / empty destinations, titles in the three quote forms, reference definitions and uses, code spans, fenced and indented code, HTML blocks, raw-text elements, comments, inline HTML, lists, block quotes, headings, escaped brackets and parentheses, nested brackets) through linkDestinationReplacer.replace with base https://example.com/base, dir docs; (2) random sources with random replacement lists (valid, overlapping, out of range) through applyReplacements; (3) a backslash / U+00A0 dictionary, its pairs and random bytes through markdownURLEscape and markdownUnescape; (4) generated lines x positions through parseDestination, parseTitle, findLabelEnd; (5) the fence family: documents around one fenced code block - opening fence {backtick, tilde} x length 3..6 x indentation 0..4 x info string {none, word, with backticks, with tildes, link syntax}; block lines that are links, definitions, text or look like fences (same / other character, shorter / equal / longer run, indented 0..4 or by a tab, followed by nothing, blanks or text); closing fence equal / longer / indented / fence-like / missing; followed by links, definitions, autolinks; alone, after a paragraph or a block of (1), in a block quote (also left early), in a list item (continuation indented or not); LF or CRLF - and the matrix of single lines indentation x character x run 0..7 x trailing text through isFenceStart, isIndentedCode and, after the opening fences {backtick, tilde} x {1, 3, 4, 5, 6} (quick: three of the ten per line, rotating), isFenceClose; (6) the literal-context family: lines of 2-5 pieces - code spans of backtick-run length 1..3 whose content starts with / contains / ends with backslashes, a backslash before each ASCII punctuation byte, backslash-backtick, link syntax, a backtick run of another length; raw HTML tags and attribute values, comments, processing instructions, CDATA, raw text elements and autolinks with backslashes; links whose text, angle or bare destination or title holds backslashes, escaped brackets, code spans; bare backslashes and brackets - mixed with plain links, with a definition or link line before and a link, definition or another such line after; each as a document through the oracle, and one line each (after a leading word) through the model of scanInlineLinks (every real replacement is a span of the model, every span of the model that is a plain relative path is a real replacement); (7) for the finding classes' precision self-test, per class 250 documents for which the class predicts a wrong rewriting, from per-class generators (classgens.go), partly inside a document of (1); a case is non-trivial when it has a link construct / a replacement / a backslash or C2 byte; distinct by (op, input)"
+	res.Rule = "cases for the real code (run inside cmd/scriggo's tag-guarded test): (1) generated Markdown documents of 1-4 blocks from the construct list of the property (inline links and images with bare / angle / empty destinations, titles in the three quote forms, reference definitions and uses, code spans, fenced and indented code, HTML blocks, raw-text elements, comments, inline HTML, lists, block quotes, headings, escaped brackets and parentheses, nested brackets) through linkDestinationReplacer.replace with base https://example.com/base, dir docs; (2) random sources with random replacement lists (valid, overlapping, out of range) through applyReplacements; (3) a backslash / U+00A0 dictionary, its pairs and random bytes through markdownURLEscape and markdownUnescape; (4) generated lines x positions through parseDestination, parseTitle, findLabelEnd; (5) the fence family: documents around one fenced code block - opening fence {backtick, tilde} x length 3..6 x indentation 0..4 x info string {none, word, with backticks, with tildes, link syntax}; block lines that are links, definitions, text or look like fences (same / other character, shorter / equal / longer run, indented 0..4 or by a tab, followed by nothing, blanks or text); closing fence equal / longer / indented / fence-like / missing; followed by links, definitions, autolinks; alone, after a paragraph or a block of (1), in a block quote (also left early), in a list item (continuation indented or not); LF or CRLF - and the matrix of single lines indentation x character x run 0..7 x trailing text through isFenceStart, isIndentedCode and, after the opening fences {backtick, tilde} x {1, 3, 4, 5, 6} (quick: three of the ten per line, rotating), isFenceClose; (6) the literal-context family: lines of 2-5 pieces - code spans of backtick-run length 1..3 whose content starts with / contains / ends with backslashes, a backslash before each ASCII punctuation byte, backslash-backtick, link syntax, a backtick run of another length; raw HTML tags and attribute values, comments, processing instructions, CDATA, raw text elements and autolinks with backslashes; links whose text, angle or bare destination or title holds backslashes, escaped brackets, code spans; bare backslashes and brackets - mixed with plain links, with a definition or link line before and a link, definition or another such line after; each as a document through the oracle, and one line each (after a leading word) through the model of scanInlineLinks (every real replacement is a span of the model, every span of the model that is a plain relative path is a real replacement), and through that model also lines around a code span of 1-3 backticks that contains a backtick string of another length (shorter, longer by one or two, equal), with links inside and after, closed / unclosed / followed by HTML; (7) for the finding classes' precision self-test, per class 250 documents for which the class predicts a wrong rewriting, from per-class generators (classgens.go), partly inside a document of (1); a case is non-trivial when it has a link construct / a replacement / a backslash or C2 byte; distinct by (op, input)"
 
 	var cases []tcase
 	var keys []string
